@@ -139,7 +139,9 @@ def candidates(rng, t, opts, st, depth):
             A((0.7, ['scan', 'acc_tbox_mut', 'tbox', mut_red(), None]))
             A((0.7, ['scan', 'acc_ndict_mut', 'ndict', mut_red(), None]))
             A((0.7, ['scan', 'acc_nlist_mut', 'nlist', mut_red(), None]))
+            A((0.7, ['scan', 'acc_ddict_mut', 'ddict', mut_red(), None]))
         A((1, ['scan', 'acc_digest', 'zero', red(), None]))
+        A((0.8, ['scan', 'acc_phase', 'phase', red(), None]))
         if t == 'i':
             A((0.8, ['scan', 'acc_npvec', 'npvec', red(), None]))
         A((0.8, ['scan', 'acc_append_any', rng.choice(['list_partial', 'list_callable_object', 'list_lru']), red(), None]))
@@ -225,12 +227,14 @@ def gen_context(rng, cx, t, opts, st, depth):
         if w > s:
             st.tainted = True
     elif cx == 'split':
-        pred = rng.choice(['div:%d', 'divt:%d', 'divs:%d', 'divbig:%d', 'divpar:%d', 'divnp:%d', 'divbool:%d', 'divcent:%d', 'divnone:%d', 'divnan:%d', 'divobj:%d']) % _k(rng) if t == 'i' else 'digpar:%d' % _k(rng, 10, 40)
+        pred = rng.choice(['div:%d', 'divt:%d', 'divs:%d', 'divbig:%d', 'divpar:%d', 'divnp:%d', 'divbool:%d', 'divcent:%d', 'divnone:%d', 'divnan:%d', 'divobj:%d', 'divtag:%d']) % _k(rng) if t == 'i' else 'digpar:%d' % _k(rng, 10, 40)
         node = ['split', pred, inner]
     else:
         cfg = {'active': rng.choice([None, 3, 5, 8]), 'inactive': rng.choice([None, 2, 3, 4]),
                'closing': rng.choice([None, None, 'modeq:7:0', 'modeq:5:1']), 'include': rng.random() < 0.5}
         tm = rng.choice(['id', 'id', 'dt', 'dtz'])
+        if cfg['active'] is None and cfg['inactive'] is None and cfg['closing'] and rng.random() < 0.5:
+            tm = 'tnone'
         if tm != 'id':
             cfg['time'] = tm        # the same instants as naive / timezone-aware datetimes (timeouts become timedeltas)
         node = ['time_split', cfg, inner]
